@@ -222,6 +222,15 @@ def stmt_paths(n, var):
             x.get('kind') == 'UnaryOperator' and x.get('opcode') == '&' and exprs.path_of(kids(x)[0]) == var for x in walk(n))
         # an inner loop may also return out of the function; that only removes paths
         return {(None if touched else 0, 'norm')}
+    if k == 'SwitchStmt':
+        touched = var in flow.assigned_paths(n)
+        kinds = {'norm'}
+        for x in walk(n):
+            if x.get('kind') == 'ContinueStmt':
+                kinds.add('cont')
+            if x.get('kind') == 'ReturnStmt' or flow.is_noreturn_call(x):
+                kinds.add('exit')
+        return {(None if touched else 0, kd) for kd in kinds}
     if k == 'DeclStmt':
         d = 0
         for v in kids(n):
